@@ -65,3 +65,19 @@ UNITS += [
          target="JitAllocator_query", contracts="contracts/c09_release.h", replace=[r for r in L3REPL if "fill" not in r and "VirtMem" not in r],
          quick_defines=QW, thorough_defines=TW, unwind=24, object_bits=9, mem_gb=28, kind="bounded", bound_note=BNK + "; granularity 64/128/256; one block", trusted=L3TRUST[:1]),
 ]
+
+BLKS = "contracts/c09_blocks.h"
+UNITS += [
+    Unit(name="c09.pool.remove_block", props=["C09"], tu=JA, roots=["asmjit::JitAllocatorImpl_removeBlock"],
+         stops=["asmjit::ArenaTree::remove", "asmjit::ArenaList::unlink"], target="JitAllocatorImpl_removeBlock", contracts=BLKS,
+         replace=["ArenaList_JitAllocatorBlock_unlink", "ArenaTree_JitAllocatorBlock_remove_Support_Compare_Support_SortOrder_kAscending"],
+         unwind=16, kind="bounded", bound_note="pools of 1..3 blocks, every position of the block and of the cursor; sizes and totals symbolic",
+         note="modular: ArenaList::unlink replaced by its contract (unit c18.list.unlink)",
+         trusted=["ArenaTree<JitAllocatorBlock>::remove replaced by an ASSUMED contract that records the call"]),
+    Unit(name="c09.pool.insert_block", props=["C09"], tu=JA, roots=["asmjit::JitAllocatorImpl_insertBlock"],
+         stops=["asmjit::ArenaTree::insert", "asmjit::ArenaList::_add_node"], target="JitAllocatorImpl_insertBlock", contracts=BLKS,
+         replace=["ArenaList_JitAllocatorBlock__add_node", "ArenaTree_JitAllocatorBlock_insert_Support_Compare_Support_SortOrder_kAscending"],
+         unwind=16, kind="bounded", bound_note="pools of 0..3 blocks; sizes and totals symbolic",
+         note="modular: ArenaList::_add_node replaced by its contract (unit c18.list.add_node)",
+         trusted=["ArenaTree<JitAllocatorBlock>::insert replaced by an ASSUMED contract that records the call"]),
+]
